@@ -716,6 +716,13 @@ func appliedIdentity(r *Result, rng *rand.Rand) {
 			if i >= 3 && rng.Intn(3) == 0 {
 				continue
 			}
+			if i == 2 && k%2 == 1 {
+				// an operator reloads the policy with a PolicyOptions value that does not mention Squash (what the documented
+				// runtime-reconfiguration example does): the squash mode is immutable at runtime, so whether the update is
+				// refused or not, the requests that follow are still squashed under the configured mode
+				_ = w.srv.NFS.UpdatePolicyOptions(absnfs.PolicyOptions{ReadOnly: false})
+				r.count("applied-identity:policy-reload")
+			}
 			appliedOne(r, w, mode, c, fmt.Sprintf("f%d", i))
 		}
 		w.Close()
